@@ -248,7 +248,7 @@ func checkC10(c *Ctx, r *Report) {
 		var sites []string
 		n := 0
 		for _, fn := range w.SSAFuncs {
-			allInstrs(fn, false, func(f *ssa.Function, _ *ssa.BasicBlock, _ int, ins ssa.Instruction) {
+			allInstrsLocal(fn, false, func(f *ssa.Function, _ *ssa.BasicBlock, _ int, ins ssa.Instruction) {
 				st, ok := ins.(*ssa.Store)
 				if !ok {
 					return
